@@ -14,7 +14,7 @@ use std::sync::atomic::{AtomicU64, AtomicUsize, Ordering as O};
 use std::sync::Mutex as StdMutex;
 use std::task::{Context, Poll, RawWaker, RawWakerVTable, Waker};
 
-use futures_buffered::{FuturesUnordered, FuturesUnorderedBounded, MergeBounded};
+use futures_buffered::{join_all, BufferedStreamExt, FuturesOrderedBounded, FuturesUnordered, FuturesUnorderedBounded, MergeBounded};
 use futures_core::Stream;
 use loom::sync::atomic::AtomicBool;
 use loom::sync::{Arc, Mutex, Notify};
@@ -33,6 +33,10 @@ struct Block {
     released: u32,
 }
 static BLOCKS: StdMutex<Vec<Block>> = StdMutex::new(Vec::new());
+/// which thread released each block in this schedule (part of the recorded outcome: shows that the
+/// release really raced)
+static RELEASED_BY: StdMutex<Vec<String>> = StdMutex::new(Vec::new());
+static RELEASE_OUTCOMES: StdMutex<BTreeSet<Vec<String>>> = StdMutex::new(BTreeSet::new());
 static CHILD_POLLS_AFTER_DROP: AtomicUsize = AtomicUsize::new(0);
 static COLLECTION_GONE: AtomicUsize = AtomicUsize::new(0);
 
@@ -65,6 +69,7 @@ fn probe_release(base: *mut u8, size: usize, align: usize) -> bool {
             }
         }
     }
+    RELEASED_BY.lock().unwrap().push(format!("{:?}", thread::current().id()));
     true // deferred: freed at the end of the schedule, so that a later use is observed, not UB
 }
 fn probe_vtable(kind: u8, item: *const (), header: *const ()) {
@@ -94,6 +99,8 @@ fn begin_schedule() {
 }
 /// end of one schedule: every block must have been released exactly once; free the deferred memory
 fn end_schedule(expect_all_released: bool) {
+    let rb: Vec<String> = std::mem::take(&mut *RELEASED_BY.lock().unwrap());
+    RELEASE_OUTCOMES.lock().unwrap().insert(rb);
     let blocks: Vec<Block> = std::mem::take(&mut *BLOCKS.lock().unwrap());
     let mut leaked = None;
     for b in &blocks {
@@ -310,6 +317,32 @@ impl Exec {
     }
 }
 
+impl Exec {
+    /// poll a future to completion; sleep on Pending until the most recent task waker is invoked
+    fn block_on<F: Future + Unpin>(&mut self, f: &mut F) -> F::Output {
+        loop {
+            let w = self.waker();
+            let mut cx = Context::from_waker(&w);
+            match Pin::new(&mut *f).poll(&mut cx) {
+                Poll::Ready(x) => return x,
+                Poll::Pending => {
+                    thread::yield_now();
+                    self.task.notify.wait();
+                }
+            }
+        }
+    }
+}
+
+/// an upstream that hands out its futures immediately
+struct ReadyUp(Vec<FlagFut>);
+impl Stream for ReadyUp {
+    type Item = FlagFut;
+    fn poll_next(mut self: Pin<&mut Self>, _cx: &mut Context<'_>) -> Poll<Option<FlagFut>> {
+        Poll::Ready(if self.0.is_empty() { None } else { Some(self.0.remove(0)) })
+    }
+}
+
 fn check_outputs(mut got: Vec<u32>, n: u32) {
     record_outcome(got.clone());
     got.sort();
@@ -497,6 +530,94 @@ fn c01_two_groups_same() {
 }
 fn c01_two_groups_fresh() {
     c01_two_groups(true)
+}
+
+/// C01: join_all of two flag futures completed by two threads
+fn c01_join_all2() {
+    begin_schedule();
+    let shs: Vec<Arc<Shared>> = (0..2).map(|_| shared(1)).collect();
+    let mut j = join_all(shs.iter().enumerate().map(|(i, sh)| FlagFut { id: i as u32, sh: sh.clone() }));
+    let hs: Vec<_> = shs
+        .iter()
+        .map(|sh| {
+            let sh = sh.clone();
+            thread::spawn(move || fire(&sh, How::Wake, true))
+        })
+        .collect();
+    let mut ex = Exec::new(false);
+    let got = ex.block_on(&mut j);
+    for h in hs {
+        h.join().unwrap();
+    }
+    if got != vec![0, 1] {
+        violation("wrong-outputs", format!("join_all resolved to {:?}", got));
+    }
+    record_outcome(got);
+    drop(j);
+    drop(ex);
+    for sh in &shs {
+        sh.wakers.lock().unwrap().clear();
+    }
+    end_schedule(true);
+}
+
+/// C01: the ordered bounded queue; the two children complete on two threads in either order
+fn c01_ordered2() {
+    begin_schedule();
+    let shs: Vec<Arc<Shared>> = (0..2).map(|_| shared(1)).collect();
+    let mut q = FuturesOrderedBounded::new(2);
+    for (i, sh) in shs.iter().enumerate() {
+        q.push_back(FlagFut { id: i as u32, sh: sh.clone() });
+    }
+    let hs: Vec<_> = shs
+        .iter()
+        .map(|sh| {
+            let sh = sh.clone();
+            thread::spawn(move || fire(&sh, How::Wake, true))
+        })
+        .collect();
+    let mut ex = Exec::new(false);
+    let got = ex.drain(&mut q, 0);
+    for h in hs {
+        h.join().unwrap();
+    }
+    if got != vec![0, 1] {
+        violation("wrong-outputs", format!("ordered queue yielded {:?}", got));
+    }
+    record_outcome(got);
+    drop(q);
+    drop(ex);
+    for sh in &shs {
+        sh.wakers.lock().unwrap().clear();
+    }
+    end_schedule(true);
+}
+
+/// C01: buffered_unordered(2) over an upstream of two futures completed by two threads
+fn c01_buffered2() {
+    begin_schedule();
+    let shs: Vec<Arc<Shared>> = (0..2).map(|_| shared(1)).collect();
+    let up = ReadyUp(shs.iter().enumerate().map(|(i, sh)| FlagFut { id: i as u32, sh: sh.clone() }).collect());
+    let mut b = up.buffered_unordered(2);
+    let hs: Vec<_> = shs
+        .iter()
+        .map(|sh| {
+            let sh = sh.clone();
+            thread::spawn(move || fire(&sh, How::Wake, true))
+        })
+        .collect();
+    let mut ex = Exec::new(true);
+    let got = ex.drain(&mut b, 0);
+    for h in hs {
+        h.join().unwrap();
+    }
+    check_outputs(got, 2);
+    drop(b);
+    drop(ex);
+    for sh in &shs {
+        sh.wakers.lock().unwrap().clear();
+    }
+    end_schedule(true);
 }
 
 // ---- C03
@@ -695,6 +816,9 @@ fn scenarios(prop: &str, tier: &str) -> Vec<(&'static str, Scn)> {
             v.push(("c01_merge_feed", c01_merge_feed));
             v.push(("c01_two_groups_same", c01_two_groups_same));
             v.push(("c01_two_groups_fresh", c01_two_groups_fresh));
+            v.push(("c01_join_all2", c01_join_all2));
+            v.push(("c01_ordered2", c01_ordered2));
+            v.push(("c01_buffered2", c01_buffered2));
             if thorough {
                 v.push(("c01_wake_cap3", c01_wake_cap3));
             }
@@ -740,7 +864,7 @@ fn main() {
             println!(
                 "LX-OK schedules={} outcomes={} capped={} bound={}",
                 SCHEDULES.load(O::Relaxed),
-                OUTCOMES.lock().unwrap().len(),
+                OUTCOMES.lock().unwrap().len() + RELEASE_OUTCOMES.lock().unwrap().len(),
                 capped as u8,
                 b.preemption_bound.map_or(-1, |x| x as i64)
             );
